@@ -29,9 +29,12 @@ type schedTask struct {
 	id    int
 	gid   uint64
 	word  int32 // futex word: 1 = released
-	state int32
-	site  string
-	steps int
+	state int32 // written by the task itself (and by the scheduler only while the task is parked)
+	// blocked is written by the scheduler only: the task was seen waiting for a lock held by a parked task.
+	// The task may be running again at any moment, so the scheduler must never write its state.
+	blocked bool
+	site    string
+	steps   int
 }
 
 type scheduler struct {
@@ -137,9 +140,18 @@ func (s *scheduler) release(t *schedTask) {
 }
 
 //go:norace
+func eff(t *schedTask) int32 {
+	st := t.state
+	if st == tsRunning && t.blocked {
+		return tsBlocked
+	}
+	return st
+}
+
+//go:norace
 func (s *scheduler) snapshot() (running, parked, finished, blocked int) {
 	for _, t := range s.tasks {
-		switch t.state {
+		switch eff(t) {
 		case tsRunning:
 			running++
 		case tsParked:
@@ -247,9 +259,9 @@ func (s *scheduler) run() bool {
 			}
 			if time.Since(lastChange) > 4*time.Millisecond {
 				for _, t := range s.tasks {
-					if t.state == tsRunning {
+					if eff(t) == tsRunning {
 						if b, _ := s.goroutineBlocked(t.gid); b {
-							t.state = tsBlocked
+							t.blocked = true
 							s.trace = append(s.trace, 'B', byte('0'+t.id))
 							lastChange = time.Now()
 						}
@@ -267,9 +279,7 @@ func (s *scheduler) run() bool {
 			if blocked > 0 {
 				// everything is blocked: give blocked tasks a chance to have moved on
 				for _, t := range s.tasks {
-					if t.state == tsBlocked {
-						t.state = tsRunning
-					}
+					t.blocked = false
 				}
 				if time.Since(lastChange) > 60*time.Second {
 					s.stuck = s.stuckReport()
@@ -304,9 +314,7 @@ func (s *scheduler) run() bool {
 		}
 		// blocked tasks may be able to proceed once this one moves: treat them as running again
 		for _, x := range s.tasks {
-			if x.state == tsBlocked {
-				x.state = tsRunning
-			}
+			x.blocked = false
 		}
 		s.release(t)
 		lastChange = time.Now()
